@@ -2,8 +2,14 @@ package props
 
 import (
 	"context"
+	"errors"
 	"fmt"
 	"time"
+
+	"github.com/attestantio/vouch/services/scheduler"
+	"github.com/google/uuid"
+	e2types "github.com/wealdtech/go-eth2-types/v2"
+	e2wtypes "github.com/wealdtech/go-eth2-wallet-types/v2"
 
 	eth2client "github.com/attestantio/go-eth2-client"
 	"github.com/attestantio/go-eth2-client/api"
@@ -105,3 +111,130 @@ func must(err error) {
 }
 
 func sprintf(f string, a ...any) string { return fmt.Sprintf(f, a...) }
+
+// ---- accounts -------------------------------------------------------------------------------------
+
+// hPub is a stand-in public key (vouch only marshals and compares public keys outside the signer).
+type hPub struct{ b [48]byte }
+
+func (p *hPub) Aggregate(_ e2types.PublicKey) {}
+func (p *hPub) Marshal() []byte               { return p.b[:] }
+func (p *hPub) Copy() e2types.PublicKey       { c := *p; return &c }
+
+type hWallet struct{ name string }
+
+func (w *hWallet) Name() string { return w.name }
+
+// hAccount is a wallet account stand-in: name, wallet name, public key.
+type hAccount struct {
+	id     uuid.UUID
+	name   string
+	wallet *hWallet
+	pub    *hPub
+}
+
+func newAccount(wallet, name string, b byte) *hAccount {
+	a := &hAccount{name: name, wallet: &hWallet{name: wallet}, pub: &hPub{}}
+	a.id[0] = b
+	for i := range a.pub.b {
+		a.pub.b[i] = b
+	}
+	a.pub.b[0] = 0x80 | b // looks like a compressed G1 point
+	return a
+}
+
+func (a *hAccount) ID() uuid.UUID                              { return a.id }
+func (a *hAccount) Name() string                               { return a.name }
+func (a *hAccount) PublicKey() e2types.PublicKey               { return a.pub }
+func (a *hAccount) Path() string                               { return "" }
+func (a *hAccount) Lock(_ context.Context) error               { return nil }
+func (a *hAccount) Unlock(_ context.Context, _ []byte) error   { return nil }
+func (a *hAccount) IsUnlocked(_ context.Context) (bool, error) { return true, nil }
+func (a *hAccount) Wallet() e2wtypes.Wallet                    { return hWalletFull{a.wallet} }
+func (a *hAccount) pubkey() phase0.BLSPubKey {
+	var k phase0.BLSPubKey
+	copy(k[:], a.pub.b[:])
+	return k
+}
+
+// hWalletFull adapts hWallet to the e2wtypes.Wallet interface (only Name is used by vouch here).
+type hWalletFull struct{ w *hWallet }
+
+func (w hWalletFull) ID() uuid.UUID                              { return uuid.UUID{} }
+func (w hWalletFull) Type() string                               { return "verif" }
+func (w hWalletFull) Name() string                               { return w.w.name }
+func (w hWalletFull) Version() uint                              { return 1 }
+func (w hWalletFull) Lock(_ context.Context) error               { return nil }
+func (w hWalletFull) Unlock(_ context.Context, _ []byte) error   { return nil }
+func (w hWalletFull) IsUnlocked(_ context.Context) (bool, error) { return true, nil }
+func (w hWalletFull) Accounts(_ context.Context) <-chan e2wtypes.Account {
+	ch := make(chan e2wtypes.Account)
+	close(ch)
+	return ch
+}
+
+// accountsTable implements the account-manager provider interfaces over a fixed table.
+type accountsTable struct {
+	byIndex map[phase0.ValidatorIndex]*hAccount
+	err     error
+}
+
+func (t *accountsTable) ValidatingAccountsForEpoch(_ context.Context, _ phase0.Epoch) (map[phase0.ValidatorIndex]e2wtypes.Account, error) {
+	if t.err != nil {
+		return nil, t.err
+	}
+	out := map[phase0.ValidatorIndex]e2wtypes.Account{}
+	for i, a := range t.byIndex {
+		out[i] = a
+	}
+	return out, nil
+}
+
+func (t *accountsTable) ValidatingAccountsForEpochByIndex(_ context.Context, _ phase0.Epoch, idx []phase0.ValidatorIndex) (map[phase0.ValidatorIndex]e2wtypes.Account, error) {
+	if t.err != nil {
+		return nil, t.err
+	}
+	out := map[phase0.ValidatorIndex]e2wtypes.Account{}
+	for _, i := range idx {
+		if a, ok := t.byIndex[i]; ok {
+			out[i] = a
+		}
+	}
+	return out, nil
+}
+
+func (t *accountsTable) SyncCommitteeAccountsForEpoch(ctx context.Context, e phase0.Epoch) (map[phase0.ValidatorIndex]e2wtypes.Account, error) {
+	return t.ValidatingAccountsForEpoch(ctx, e)
+}
+
+func (t *accountsTable) SyncCommitteeAccountsForEpochByIndex(ctx context.Context, e phase0.Epoch, idx []phase0.ValidatorIndex) (map[phase0.ValidatorIndex]e2wtypes.Account, error) {
+	return t.ValidatingAccountsForEpochByIndex(ctx, e, idx)
+}
+
+func (t *accountsTable) AccountByPublicKey(_ context.Context, k phase0.BLSPubKey) (e2wtypes.Account, error) {
+	for _, a := range t.byIndex {
+		if a.pubkey() == k {
+			return a, nil
+		}
+	}
+	return nil, errors.New("no such account")
+}
+
+// nopScheduler accepts jobs and never runs them (the harness drives the job functions itself).
+type nopScheduler struct{ names []string }
+
+func (s *nopScheduler) ScheduleJob(_ context.Context, _ string, name string, _ time.Time, _ scheduler.JobFunc) error {
+	s.names = append(s.names, name)
+	return nil
+}
+func (s *nopScheduler) SchedulePeriodicJob(_ context.Context, _ string, name string, _ scheduler.RuntimeFunc, _ scheduler.JobFunc) error {
+	s.names = append(s.names, name)
+	return nil
+}
+func (s *nopScheduler) CancelJob(_ context.Context, _ string) error   { return nil }
+func (s *nopScheduler) CancelJobIfExists(_ context.Context, _ string) {}
+func (s *nopScheduler) CancelJobs(_ context.Context, _ string)        {}
+func (s *nopScheduler) RunJob(_ context.Context, _ string) error      { return nil }
+func (s *nopScheduler) JobExists(_ context.Context, _ string) bool    { return false }
+func (s *nopScheduler) RunJobIfExists(_ context.Context, _ string)    {}
+func (s *nopScheduler) ListJobs(_ context.Context) []string           { return s.names }
